@@ -29,6 +29,7 @@ func runC12(p *Prog, r *Report) {
 	c12R5(p, r, sites)
 	c12R6(p, r, sites)
 	c12R7(p, r)
+	c12R9(p, r, sites)
 	const r8 = "C12-R8"
 	r.Rule(r8, "lock balance in package service: in every function and for every mutex it operates on, Lock/RLock is reached only with the mutex not held by the function, Unlock/RUnlock only with the matching lock held, and the function ends with the mutex released (or releases it in a deferred call) — on every path, including the error paths of the receive loops")
 	nb := lockBalance(p, r, r8, "service", nil)
@@ -763,4 +764,64 @@ func c12R7(p *Prog, r *Report) {
 	})
 	r.Count("closed_queue_edges", n)
 	r.Floor(rule, 6)
+}
+
+// c12R9: a registered session always has the goroutine that will unregister it.
+func c12R9(p *Prog, r *Report, sites []*relaySite) {
+	const rule = "C12-R9"
+	r.Rule(rule, "registered means served: in every receive function, from a store into the session table every path to the next table lookup, to the same store again or to the function's exit passes the start of the session goroutine (the WaitGroup.Go call with the session closure) — an entry can never stay in the table without the goroutine that evicts it, whatever early exit the packet takes")
+	n := 0
+	for _, s := range sites {
+		fc := s.Recv
+		info := fc.Info()
+		if s.Session == nil || s.Session.Lit == nil {
+			r.Fail(rule, fc.Name+":session-goroutine", p.posStr(fc.Body.Pos()), "undecided: no session goroutine found")
+			continue
+		}
+		start := -1
+		for _, cs := range fc.AllCalls() {
+			if len(cs.Call.Args) == 1 && ast.Unparen(cs.Call.Args[0]) == ast.Expr(s.Session.Lit) {
+				start = cs.V
+			}
+		}
+		var inserts, lookups []int
+		for _, v := range fc.G.V {
+			as, ok := v.Node.(*ast.AssignStmt)
+			if !ok || v.Kind != VStmt {
+				continue
+			}
+			for _, l := range as.Lhs {
+				if ix, ok := ast.Unparen(l).(*ast.IndexExpr); ok && isRelayTable(info, ix.X) {
+					inserts = append(inserts, v.ID)
+				}
+			}
+			for _, rh := range as.Rhs {
+				if ix, ok := ast.Unparen(rh).(*ast.IndexExpr); ok && isRelayTable(info, ix.X) {
+					lookups = append(lookups, v.ID)
+				}
+			}
+		}
+		if start < 0 || len(inserts) == 0 {
+			r.Fail(rule, fc.Name+":shape", p.posStr(fc.Body.Pos()), "undecided: session start or table insert not found")
+			continue
+		}
+		for i, ins := range inserts {
+			n++
+			after := fc.G.ReachAfter(ins, func(v *Vertex) bool { return v.ID == start }, nil)
+			bad := ""
+			if after[fc.G.Exit] {
+				bad = "the function can end"
+			}
+			if after[ins] {
+				bad = "the next session can be registered"
+			}
+			for _, l := range lookups {
+				if after[l] {
+					bad = "the next packet can be looked up (at " + p.posStr(fc.G.V[l].Node.Pos()) + ")"
+				}
+			}
+			r.Check(bad == "", rule, fmt.Sprintf("%s:insert#%d-then-session-start", fc.Name, i), p.posStr(fc.G.V[ins].Node.Pos()), "every path from the insert reaches the session goroutine's start first", "after the entry is stored in the table "+bad+" without the session goroutine having been started: an early exit (a packet that fails to unpack, a failed pktinfo parse) leaves an entry with no queue and no goroutine, which is never evicted and blocks that client address for good")
+		}
+	}
+	r.Floor(rule, 5)
 }
